@@ -30,6 +30,13 @@ def attempts (s : String) : Option (List Attempt) :=
     if c == 'r' then some Attempt.right else if c == 'w' then some .wrong
     else if c == 's' then some .stale else none
 
+def acts (s : String) : Option (List Act) :=
+  if s == "-" then some [] else
+  s.toList.mapM fun c =>
+    match c with
+    | 'r' => some Act.right | 'w' => some .wrong | 's' => some .stale | 'c' => some .change
+    | 'u' => some .reuse | 'e' => some .eval | _ => none
+
 def showPin (r : PinResult) : Char :=
   if r.auth then 'a' else if r.exhausted then 'x' else 'f'
 
@@ -64,6 +71,17 @@ def handle : Handler
       let (rs, f) := runHistory failPinAuth (UInt8.ofNat start) h
       some (String.ofList (rs.map showPin) ++ "|" ++ toString f.toNat)
     | _, _ => some badArgs
+  | "pin.session", [h] =>
+    match acts h with
+    | some h =>
+      let (os, st) := runSession {} h
+      let showObs : Obs → Char
+        | .pin r => showPin r
+        | .evalRan true => 'E'
+        | .evalRan false => 'e'
+        | .changed => 'c'
+      some (String.ofList (os.map showObs) ++ "|" ++ toString st.failed.toNat)
+    | none => some badArgs
   | "dbg.dispatch", [evalex, pinOn, failed, dbg, cmd, hasArg, secret, frame, hostOk, cookie, pinRight, atConsole] =>
     match boolArg evalex, boolArg pinOn, natArg failed, boolArg dbg, cmdArg cmd, boolArg hasArg, secretArg secret,
         boolArg frame, boolArg hostOk, cookieArg cookie, boolArg pinRight, boolArg atConsole with
